@@ -523,11 +523,13 @@ neighbor 127.0.0.{k} {{
 	router-id 1.2.3.4;
 	local-address {local};
 	local-as 65000;
-	peer-as 6500{k};
+	peer-as {peer_as};
 	family {{ ipv4 unicast; ipv6 unicast; }}
 }}
 """
 LOCALS = ['192.0.2.1', '198.51.100.1', '203.0.113.1']
+# one route is shared by sessions of different kinds: eBGP, iBGP, eBGP
+PEER_AS = [65001, 65000, 65003]
 
 
 def _many_case(texts, order):
@@ -539,7 +541,7 @@ def _many_case(texts, order):
 
     inp = {'routes': texts, 'neighbor_order': order}
     RIB._cache.clear()  # one case = one ExaBGP process: the per-process Adj-RIB cache (keyed by neighbor name) starts empty
-    conf_text = ''.join(MANY.format(k=k + 1, local=LOCALS[k]) for k in range(3))
+    conf_text = ''.join(MANY.format(k=k + 1, local=LOCALS[k], peer_as=PEER_AS[k]) for k in range(3))
     conf = Configuration([conf_text], text=True)
     if not conf.reload():
         raise RuntimeError(f'harness: three-neighbor configuration refused: {conf.error}')
@@ -559,11 +561,25 @@ def _many_case(texts, order):
         peer_as = int(nb.session.peer_as)
         neg, _, _ = H.negotiated(nb, H.peer_open_bytes(peer_as, 180, '9.9.9.9', H.std_caps(peer_as)))
         seen = {}
+        ibgp = peer_as == 65000
         for u in nb.rib.outgoing.updates(False):
             if not isinstance(u, UpdateCollection):
                 continue
             for m in u.messages(neg):
                 d = decode_update(bytes(m), (lambda a, s: False))
+                # the defaults of THIS session (RFC 4271 5.1.2 / 5.1.5), unless the operator wrote the attribute
+                given = ' '.join(texts)
+                by_type = {t: v for _f, t, v in d['attributes']}
+                if d['nlri'] or d['mp_reach']:
+                    if 'local-preference' not in given:
+                        if ibgp and by_type.get(5) != (100).to_bytes(4, 'big'):
+                            return {'what': f'one route announced to an eBGP and an iBGP neighbor: the iBGP session ({local}) sends LOCAL_PREF {by_type.get(5)!r}, expected 100', 'input': inp, 'session': local}
+                        if not ibgp and 5 in by_type:
+                            return {'what': f'one route announced to an eBGP and an iBGP neighbor: the eBGP session ({local}) sends a LOCAL_PREF', 'input': inp, 'session': local}
+                    if 'as-path' not in given:
+                        want_path = b'' if ibgp else bytes([2, 1]) + (65000).to_bytes(4, 'big')
+                        if by_type.get(2) != want_path:
+                            return {'what': f'one route announced to an eBGP and an iBGP neighbor: the {"iBGP" if ibgp else "eBGP"} session ({local}) sends AS_PATH {by_type.get(2, b"").hex()!r}, expected {want_path.hex()!r}', 'input': inp, 'session': local}
                 nh3 = [v for _f, t, v in d['attributes'] if t == 3]
                 for p in d['nlri']:
                     seen[str(p)] = ('.'.join(str(b) for b in nh3[0]) if nh3 else 'ABSENT')
@@ -573,7 +589,10 @@ def _many_case(texts, order):
         for text in texts:
             v4 = ':' not in text.split()[1]
             vals = [v for k_, v in seen.items()]
-            if v4:
+            if v4 and 'next-hop self' not in text:
+                if '192.0.2.254' not in vals:
+                    return {'what': f'a route with next-hop 192.0.2.254 announced to three neighbors: the session {local} sends NEXT_HOP {sorted(set(vals))}', 'input': inp, 'session': local}
+            elif v4:
                 want = local
                 if want not in vals or any(v in LOCALS and v != local for v in vals):
                     return {'what': f'"next-hop self" of a route announced to three neighbors: the session with local address {local} sends NEXT_HOP {sorted(set(vals))}', 'input': inp, 'session': local}
@@ -589,6 +608,9 @@ def self_many_neighbors(tier, seed):
         ['route 10.0.0.0/24 next-hop self local-preference 200'],
         ['route 10.0.0.0/24 next-hop self', 'route 10.0.1.0/24 next-hop self med 5'],
         ['route 10.0.0.0/24 next-hop self community [ 65000:1 ] as-path [ 65010 65020 ]'],
+        # an explicit next hop: resolve_self hands the SAME Route (one attribute collection) to every neighbor
+        ['route 10.0.0.0/24 next-hop 192.0.2.254'],
+        ['route 10.0.0.0/24 next-hop 192.0.2.254 med 7 community [ 65000:1 ]'],
     ]
     fails, evals = [], 0
     for tx in texts:
@@ -597,7 +619,7 @@ def self_many_neighbors(tier, seed):
             f = _many_case(tx, list(order))
             if f:
                 fails.append(f)
-    return {'evaluations': evals, 'distinct_nontrivial': evals, 'bound': '4 route sets (one or two ipv4 routes with "next-hop self", with and without other attributes) x 6 orders of three neighbors with different local addresses; parsed once by Configuration.parse_route_text, handed to all by Configuration.announce_route, each Adj-RIB-Out drained and decoded by the reference decoder', 'rule': 'one case = (route texts, neighbor order)', 'samples': [{'routes': texts[0], 'neighbor_order': [0, 1, 2]}], 'failures': fails}
+    return {'evaluations': evals, 'distinct_nontrivial': evals, 'bound': '6 route sets (one or two ipv4 routes with "next-hop self" or an explicit next hop, with and without other attributes) x 6 orders of three neighbors (eBGP, iBGP, eBGP) with different local addresses: NEXT_HOP, and the AS_PATH / LOCAL_PREF defaults of each session; parsed once by Configuration.parse_route_text, handed to all by Configuration.announce_route, each Adj-RIB-Out drained and decoded by the reference decoder', 'rule': 'one case = (route texts, neighbor order)', 'samples': [{'routes': texts[0], 'neighbor_order': [0, 1, 2]}], 'failures': fails}
 
 
 @replayer('C01', 'self-many-neighbors')
